@@ -1,6 +1,8 @@
 package types
 
 import (
+	"fmt"
+
 	sdk "github.com/cosmos/cosmos-sdk/types"
 )
 
@@ -20,10 +22,17 @@ func DefaultParams() Params {
 
 // Validate validates the set of params
 func (p Params) Validate() error {
+	seen := make(map[string]bool, len(p.AllowedDenoms))
 	for _, denom := range p.AllowedDenoms {
 		if err := sdk.ValidateDenom(denom); err != nil {
 			return err
 		}
+
+		// a repeated denom would make the staked power count the same coins more than once
+		if seen[denom] {
+			return fmt.Errorf("duplicate allowed denom: %s", denom)
+		}
+		seen[denom] = true
 	}
 
 	return nil
